@@ -131,6 +131,11 @@ func (r *rw) rewriteFile(f *ast.File) string {
 	pre := string(r.src[:r.off(f.Pos())])
 	post := string(r.src[r.off(f.End()):])
 	// insert import after the package clause line
+	for _, im := range f.Imports {
+		if im.Path.Value == "\""+simrtPath+"\"" {
+			return pre + out + post
+		}
+	}
 	pkgEnd := r.off(f.Name.End()) - r.off(f.Pos())
 	out = out[:pkgEnd] + "\nimport simrt \"" + simrtPath + "\"\n" + out[pkgEnd:]
 	return pre + out + post
@@ -421,6 +426,9 @@ func (r *rw) rewriteRange(x *ast.RangeStmt) (string, bool) {
 	case *types.Map:
 		if !pureExpr(x.X) {
 			r.flag(x, "range over non-pure map expression")
+			return "", false
+		}
+		if strings.Contains(string(r.src), "//simgen:nomaps") {
 			return "", false
 		}
 		r.count("range_map")
